@@ -117,7 +117,8 @@ def run_model_checks(ctx, cfgs):
     def one(c):
         return c, tlc.run(ctx, "QuotaTree", c["cfg"], workers=c.get("workers", 2), coverage=c.get("coverage", False),
                           timeout=c.get("timeout", 600), heap=c.get("heap"), name="mc_" + c["cfg"][:-4])
-    with ThreadPoolExecutor(max_workers=len(cfgs)) as ex:
+    # at most 4 JVMs at a time (the machine is shared); the list is ordered biggest first
+    with ThreadPoolExecutor(max_workers=min(4, len(cfgs))) as ex:
         futs = [ex.submit(one, c) for c in cfgs]
         return [f.result() for f in futs]          # InfraError propagates
 
@@ -145,13 +146,13 @@ def run_witness_searches(ctx, classes_paths):
     def one(cp):
         cls, path = cp
         cfg = "QuotaTree_wit_%s_%s.cfg" % (WITNESS[cls], path)
-        res = tlc.run(ctx, "QuotaTree", cfg, workers=1, timeout=900, name="wit_%s_%s" % (WITNESS[cls], path))
+        res = tlc.run(ctx, "QuotaTree", cfg, workers=1, timeout=1700, name="wit_%s_%s" % (WITNESS[cls], path))
         if res.ok:
             return cp, None, res                       # no step of this class under this path within the bounds
         if res.kind != "invariant" or not res.trace:
             raise InfraError("witness search %s ended unexpectedly: %s" % (cfg, res.summary()))
         return cp, ops_of_behaviour(res.trace), res
-    with ThreadPoolExecutor(max_workers=max(1, len(classes_paths))) as ex:
+    with ThreadPoolExecutor(max_workers=3) as ex:
         return [f.result() for f in [ex.submit(one, cp) for cp in classes_paths]]
 
 
@@ -235,7 +236,7 @@ def validate_files(ctx, files, timeout=1500):
                                 name="trace_%d" % i)
         return {"file": f, "accepted": tv["accepted"], "stuck_line": tv["stuck_line"], "invariant": tv["invariant"],
                 "states": tv["res"].distinct}
-    with ThreadPoolExecutor(max_workers=max(1, len(files))) as ex:
+    with ThreadPoolExecutor(max_workers=min(8, max(1, len(files)))) as ex:
         return [f.result() for f in [ex.submit(one, x) for x in enumerate(files)]]
 
 
